@@ -298,10 +298,21 @@ def write_replay(pid, payload):
     return path
 
 
+def _strict(o):
+    """NaN / infinities (legal in generated inputs) are not JSON: spell them as strings in the evidence file"""
+    if isinstance(o, float) and (o != o or o in (float("inf"), float("-inf"))):
+        return repr(o)
+    if isinstance(o, dict):
+        return {(k if isinstance(k, str) else str(k)): _strict(v) for k, v in o.items()}
+    if isinstance(o, (list, tuple)):
+        return [_strict(v) for v in o]
+    return o
+
+
 def write_evidence(pid, tier, seed, level, coverage, assumptions, wall, violations):
     os.makedirs(EVID, exist_ok=True)
     ev = {"property_id": pid, "tier": tier, "seed": int(seed), "level": level, "coverage": coverage,
           "assumptions": assumptions, "wall_s": round(wall, 2), "violations": int(violations)}
     with open(os.path.join(EVID, pid + ".json"), "w") as f:
-        json.dump(ev, f, indent=1, default=str)
+        json.dump(_strict(ev), f, indent=1, default=str, allow_nan=False)
     return ev
